@@ -331,5 +331,21 @@ pub fn run(opts: &Opts) -> Report {
     }
     rep.sample(json!({"text": "ab c", "known": [[0,2],[1,4]], "reference": [[0,2]], "operator": "overlaps", "expected": [[1,4]]}));
     rep.sample(json!({"text": "ab c", "known": [[4,4],[0,4]], "reference": [[0,4]], "operator": "embeds", "expected": [[4,4]], "note": "zero-width selection at the very end of the text"}));
+    // an annotation that selects no text (a dataset target), in a store without any resource: its related text is nothing
+    {
+        rep.count("annotation-without-text");
+        let got = guarded(std::panic::AssertUnwindSafe(|| -> Result<usize, StamError> {
+            let mut st = AnnotationStore::default();
+            st.add_dataset(AnnotationDataSetBuilder::new().with_id("set"))?;
+            st.annotate(AnnotationBuilder::new().with_id("m").with_target(SelectorBuilder::datasetselector("set")).with_data("set", "k", "v"))?;
+            let a = st.annotation("m").expect("annotation");
+            Ok(a.related_text(TextSelectionOperator::overlaps()).count() + a.related_text(TextSelectionOperator::equals()).count())
+        }));
+        match got {
+            Ok(Ok(0)) => {}
+            Ok(other) => rep.fail("oracle", "annotation-without-text/finds-something", vec!["a store with a dataset only; an annotation on the dataset; related_text(overlaps)".into()], "nothing", &format!("{:?}", other.map_err(|e| format!("{}", e)))),
+            Err(m) => rep.fail("panic", "annotation-without-text/panic", vec!["a store with a dataset only; an annotation on the dataset; related_text(overlaps)".into()], "nothing", &m),
+        }
+    }
     rep
 }
